@@ -38,6 +38,26 @@ def run(ctx, report):
                 raise AnalysisError(f"SAMIReader._translate_css_property cannot be folded: {e}")
         report.check(ok_w and back == {st: True}, "R-TABLE-INVERSE", w, f"SAMI: {st} -> {css} -> {back}",
                      {"written": css, "read_back": back, "required_css": {CSS[st][0]: CSS[st][1]}}, "1")
+    # negative cases: a flag that is False writes nothing; a CSS value that is not the style's own value reads nothing
+    neg = []
+    for st in STYLES:
+        try:
+            css0 = folder.call_function(w, [{st: False}], self_value=_Self())
+        except AnalysisError as e:
+            raise AnalysisError(f"SAMIWriter._recreate_style cannot be folded: {e}")
+        if css0 not in ({}, {st: False}):
+            neg.append({"writer": {st: False}, "written": css0})
+    for prop, val in (("font-style", "normal"), ("font-weight", "normal"), ("text-decoration", "none"),
+                      ("font-weight", "italic"), ("font-style", "bold"), ("text-decoration", "italic")):
+        back0 = {}
+        try:
+            folder.call_function(r, [back0, prop, val], self_value=_Self())
+        except AnalysisError as e:
+            raise AnalysisError(f"SAMIReader._translate_css_property cannot be folded: {e}")
+        if any(back0.get(k) for k in STYLES):
+            neg.append({"reader": f"{prop}:{val}", "read": back0})
+    report.check(not neg, "R-TABLE-INVERSE", r, "SAMI: a style that is off writes nothing; a foreign CSS value switches nothing on",
+                 {"mismatches": neg[:4]}, "1")
     # non-style keys pass through unchanged
     css = folder.call_function(w, [{"color": "red", "font-family": "x"}], self_value=_Self())
     report.check(css == {"color": "red", "font-family": "x"}, "R-TABLE-INVERSE", w, "SAMI: other style rules pass through unchanged",
@@ -84,6 +104,15 @@ def run(ctx, report):
     ri = read_(wi) if isinstance(wi, dict) else None
     report.check(wi == {"tts:fontStyle": "italic"} and ri == {"italics": True}, "R-TABLE-INVERSE", dw,
                  "DFXP: italics <-> tts:fontStyle=\"italic\"", {"written": wi, "read_back": ri}, "1")
+    # reader: bold / underline are read although DFXPWriter does not write them; foreign values switch nothing on
+    rb = {"bold": read_({"tts:fontWeight": "bold"}), "underline": read_({"tts:textDecoration": "underline"}),
+          "underline among others": read_({"tts:textDecoration": "noOverline underline"})}
+    negd = {str(a): read_(a) for a in ({"tts:fontStyle": "normal"}, {"tts:fontWeight": "normal"}, {"tts:textDecoration": "none"},
+                                      {"tts:fontStyle": "bold"}, {"tts:fontWeight": "italic"}, {"tts:color": "italic"})}
+    ok_pos = rb["bold"] == {"bold": True} and rb["underline"] == {"underline": True} and rb["underline among others"] == {"underline": True}
+    ok_neg = all(not any(v.get(k) for k in STYLES) for v in negd.values())
+    report.check(ok_pos and ok_neg, "R-TABLE-REF", dr, "DFXP reader: tts:fontStyle=italic / fontWeight=bold / textDecoration~underline "
+                 "and nothing else switch a style on", {"positive": rb, "negative": negd}, "1")
     pairs = {"font-family": "tts:fontFamily", "font-size": "tts:fontSize", "color": "tts:color", "text-align": "tts:textAlign"}
     bad = []
     for key, attr in pairs.items():
